@@ -20,4 +20,20 @@ with open(os.path.join(V, "seeded", "INDEX.md"), "w") as f:
         f.write(f"| {r[0]} | {r[1]} | {r[2]} | {r[3]} | {r[4]} |\n")
     n = len(rows); c = sum(1 for r in rows if r[2] != "-")
     f.write(f"\n{c} of {n} changes are caught by at least one registered quick check.\n")
+    # per round (ids -1..3 = round 1, -4..6 = round 2, ...) and property: caught by the property's own check / by any check
+    f.write("\n## Summary per round (own check / any check, of 3)\n\n| property | " + " | ".join(f"round {k}" for k in (1, 2, 3, 4)) + " |\n|---|---|---|---|---|\n")
+    props = sorted({r[1] for r in rows})
+    tot = {k: [0, 0, 0] for k in (1, 2, 3, 4)}
+    for pid in props:
+        cells = []
+        for k in (1, 2, 3, 4):
+            rs = [r for r in rows if r[1] == pid and (int(r[0].split("-")[1]) - 1) // 3 + 1 == k]
+            own = sum(1 for r in rs if pid in r[2].split(", "))
+            anyc = sum(1 for r in rs if r[2] != "-")
+            tot[k][0] += own; tot[k][1] += anyc; tot[k][2] += len(rs)
+            cells.append(f"{own} / {anyc}" if rs else "-")
+        f.write(f"| {pid} | " + " | ".join(cells) + " |\n")
+    f.write("| **all** | " + " | ".join(f"{tot[k][0]} / {tot[k][1]} of {tot[k][2]}" for k in (1, 2, 3, 4)) + " |\n")
+    un = [r[0] for r in rows if r[2] == "-"]
+    f.write(f"\nNot caught by any check that was run against them: {', '.join(un) or 'none'}.\n")
 print(open(os.path.join(V, "seeded", "INDEX.md")).read()[-600:])
